@@ -29,7 +29,9 @@ D4(n) == IF n < 10 THEN "000" \o ToString(n) ELSE IF n < 100 THEN "00" \o ToStri
 Fracs == { [t |-> "", us |-> 0], [t |-> "5", us |-> 500000], [t |-> "000005", us |-> 5],
            [t |-> "123", us |-> 123000], [t |-> "999999", us |-> 999999], [t |-> "050", us |-> 50000],
            [t |-> "500000", us |-> 500000], [t |-> "000000", us |-> 0],
-           [t |-> "123000", us |-> 123000], [t |-> "050000", us |-> 50000] }
+           [t |-> "123000", us |-> 123000], [t |-> "050000", us |-> 50000],
+           \* more digits than a microsecond clock has: exactly representable all the same (and a zone may follow them)
+           [t |-> "1234560000", us |-> 123456], [t |-> "50000000000000", us |-> 500000] }
 Dot(fr) == IF fr.t = "" THEN "" ELSE "." \o fr.t
 \* canonical fraction texts accepted on output for a microsecond count
 FracOut(us) == { Dot(fr) : fr \in {x \in Fracs : x.us = us} }
